@@ -1,13 +1,14 @@
 import FparserModel.Wire
 import FpDriver.Splitline
 import FpDriver.Norm
+import FpDriver.Expr
 
 /-! dispatcher: one handler per model; each handler lives in FpDriver/<Model>.lean -/
 namespace FpDriver
 open Fp.Wire
 
 def handlers : List (String → List String → Option String) :=
-  [FpDriver.Splitline.handle, FpDriver.Norm.handle]
+  [FpDriver.Splitline.handle, FpDriver.Norm.handle, FpDriver.Expr.handle]
 
 def dispatch (line : String) : String :=
   match fields line with
